@@ -24,7 +24,13 @@ def repo_hash():
         h.update(fn.encode())
         with open(p, 'rb') as f:
             h.update(hashlib.sha1(f.read()).digest())
-    # the framework's own version is part of the key (front-end / family changes re-lower)
+    # the framework's own lowering tools and runtimes are part of the key
+    import glob
+    for fn in sorted(glob.glob(os.path.join(VERIF, 'tools', '*', '*.go')) + glob.glob(os.path.join(VERIF, 'runtimes', '**', '*.*'), recursive=True)):
+        if os.path.isfile(fn):
+            h.update(fn.encode())
+            with open(fn, 'rb') as f:
+                h.update(hashlib.sha1(f.read()).digest())
     return h.hexdigest()[:16]
 
 
